@@ -3,6 +3,7 @@ import AffVerif.Judge.C12
 import AffVerif.Judge.C13
 import AffVerif.Judge.C02
 import AffVerif.Judge.C17
+import AffVerif.Judge.Hist
 /-! The judge: reads one case per line on stdin, prints one verdict per line. -/
 open AV AV.Judge
 
@@ -14,6 +15,7 @@ def judgeLine (line : String) : String :=
     match kind with
     | "C16" => judgeC16
     | "C12" => judgeC12
+    | "HIST" => judgeHist
     | "C17" => judgeC17
     | "C02" => judgeC02
     | "PANIC" => do
